@@ -133,10 +133,12 @@ fn write_layout(rng: &mut Rng, dir: &Path, pkgs: &[((String, Option<String>), Ve
                 // a directory `<deps>/<ns>/<name>/` (holding versions) shadows `<name>.wasm`:
                 // such unversioned packages are supplied with --dep
                 if versioned_names.contains(&&k.0) || rng.chance(1, 3) {
-                    let p = dir.join("local").join(format!("{ns}-{name}.wasm"));
+                    // one override path in three has an `=` in it (`--dep PKG=PATH` splits at the first `=`)
+                    let sub = if rng.chance(1, 3) { "build=release" } else { "local" };
+                    let p = dir.join(sub).join(format!("{ns}-{name}.wasm"));
                     std::fs::create_dir_all(p.parent().unwrap())?;
                     std::fs::write(&p, bytes)?;
-                    overrides.push((k.0.clone(), PathBuf::from("local").join(format!("{ns}-{name}.wasm"))));
+                    overrides.push((k.0.clone(), PathBuf::from(sub).join(format!("{ns}-{name}.wasm"))));
                 } else {
                     let d = deps_dir.join(ns);
                     std::fs::create_dir_all(&d)?;
@@ -384,6 +386,9 @@ fn compose_case(ctx: &mut Ctx, case: u64, bin: &Path, lib: &[((String, Option<St
         for (n, p) in &layout.overrides {
             args.push(if rng.chance(1, 2) { "--dep".into() } else { "-d".into() });
             args.push(format!("{n}={}", p.display()));
+            if p.to_string_lossy().contains('=') {
+                ctx.count("compose:dep-path-with-equals-sign");
+            }
         }
         if imp {
             args.push(if rng.chance(1, 2) { "--import-dependencies".into() } else { "-i".into() });
